@@ -37,8 +37,13 @@ def routedSupports (supp : σ → Key → Bool) (s : MtState σ) (k : Key) : Rou
       | .error _ => false)
     | none => false
 
-/-- `MountPointStore.is_supported` (repaired, a6dff51): the directories of the composite (root, mount points, their
-parents, whatever the routed store calls a directory) are supported; otherwise the routed store decides; no route = `False` -/
+/-- `MountPointStore.is_supported` (repaired, a6dff51 + 2edf0fa): the directories of the composite (root, mount points, their
+parents, whatever the routed store calls a directory) are supported; otherwise the routed store decides.
+**Where the model and the code part**: for a key WITHOUT a route (no default store, no mount hit) the code RAISES
+`KeyRouteNotFoundStoreException` — out of `is_supported`, out of the enclosing store's `route_to`, out of the operation — while this
+Boolean answers `false` (an exception cannot be expressed here).  The theorems of `Props/C14.lean` (nested section) use `supports`
+only where it is `true` (directories; `nested_exclusive_partial` carries the hypothesis); what the `false` answer WOULD do is shown
+there by `nested_exclusive_false_if_unsupported` (a first version of the repair answered `False` and was corrected for that reason). -/
 def supports (P : StoreOps σ) (supp : σ → Key → Bool) (s : MtState σ) (k : Key) : Bool :=
   (match isDir P supp s k with
     | .ok true => true
